@@ -51,7 +51,7 @@ def decorate(r, spec, pool, mp=False):
                else max(P.dtype_for(d).itemsize for d in P.names_of(n)))
         rb = max(ROW_BYTES, isz)
         o["target_mb"] = r.choice([200, 200, 4 * rb / 1e6, 2 * rb / 1e6, rb / 1e6])
-        if pool and n["kind"] in ("rowmap", "filter", "merge2", "multi", "cut", "mergeonly") and r.random() < 0.6:
+        if pool and n["kind"] in ("rowmap", "filter", "merge2", "multi", "multi2", "cut", "mergeonly") and r.random() < 0.6:
             o["parallel"] = True
         # Multiprocessing mode is explored in its realistic shape only: ONE process-parallel source (mp_source,
         # a source the target needs; in half of these runs it or other types may be loaded from storage, so the
@@ -59,7 +59,7 @@ def decorate(r, spec, pool, mp=False):
         # the process-parallel plugins above it.  Outside that shape ParallelSourcePlugin has a known limit
         # (DESIGN.md 12.2): it drives everything it inlines with the chunk index of its start plugin and inlines
         # a second dependency-free source as well.
-        if mp and ((n["kind"] in ("rowmap", "filter", "multi", "cut") and r.random() < 0.7) or n.get("name") == mp):
+        if mp and ((n["kind"] in ("rowmap", "filter", "multi", "multi2", "cut") and r.random() < 0.7) or n.get("name") == mp):
             o["parallel"] = "process"
             if r.random() < 0.7:        # savers of non-rechunking outputs are inlined ('forked') too
                 o["rechunk_on_save"] = {d: False for d in n["names"]} if "names" in n else False
@@ -72,10 +72,18 @@ def gen(seed, tier, kinds=None, must=None, **graph_opts):
     go = dict(n_derived=(1, 6 if big else 5), n_sources=(1, 3 if big else 2),
               kinds=kinds or KINDS, must_have=must or MUST, n_rows=(0, 16 if big else 10), max_chunks=8)
     go.update(graph_opts)
-    spec = G.gen_graph(r, **go)
+    forced_target = None
+    if kinds is None and must is None and not graph_opts and r.random() < 0.12:
+        spec, top = G.gen_sibling_diamond(r, n_rows=(1, 16 if big else 10))
+        if r.random() < 0.8:
+            forced_target = top
+    else:
+        spec = G.gen_graph(r, **go)
     types = [d for n in spec["nodes"] for d in P.names_of(n)]
     derived = [d for n in spec["nodes"] if n["kind"] != "source" for d in P.names_of(n)]
-    if must or MUST:
+    if forced_target:
+        tgt_pool = [forced_target]
+    elif must or MUST:
         tgt_pool = [d for d in derived if any(P.node_by_type(spec)[a]["kind"] in (must or MUST)
                                               for a in G.needed_for(spec, d))] or derived
     else:
@@ -86,9 +94,10 @@ def gen(seed, tier, kinds=None, must=None, **graph_opts):
     orc = P.oracle(spec)
     start, end = P.run_range(spec)
     stored = {}
-    if r.random() < 0.5:
+    diamond = spec["nodes"][1]["kind"] == "multi2" and spec["nodes"][1]["names"] == ["n0x", "n0y"]
+    if r.random() < (0.75 if diamond else 0.5):
         for d in need:
-            if r.random() < 0.35:
+            if r.random() < (0.5 if diamond else 0.35):
                 rows = [[int(a), int(b), 0] for a, b in zip(orc[d]["time"], orc[d]["endtime"])]
                 stored[d] = G.gen_bounds(r, rows, start, end, max_chunks=6)
     cfg = G.gen_proc_config(r, spec, target, stored=stored, tier=tier)
